@@ -25,7 +25,7 @@ import (
 	"github.com/GuanceCloud/platypus/pkg/inimpl/guancecloud/input"
 )
 
-var alphabet = []string{"f1", "t1", "message", "n1", "n2", "pl_msg"}
+var alphabet = []string{"f1", "t1", "message", "n1", "n2", "pl_msg", "sp k"}
 
 type Op struct {
 	Op  string `json:"op"`            // add_key, add_key1, set_tag, set_tag1, set_tag_var, add_key_var, drop_key, rename, cast, set_measurement, default_time, grok
@@ -75,7 +75,7 @@ func (Prop) Assumptions() []string {
 var lits = []string{"nil", "true", "false", "5", "-3", "1.5", `"s"`, `""`, `"12"`, "[1, 2]", `{"a": 1}`, "[]", `"2024-01-02 03:04:05"`}
 
 func genOp(r *simrt.RNG, renameBias float64) Op {
-	keys := []string{"f1", "t1", "message", "_", "n1", "n2"}
+	keys := []string{"f1", "t1", "message", "_", "n1", "n2", "`sp k`"}
 	k := keys[r.Intn(len(keys))]
 	if r.Chance(renameBias) {
 		k2 := keys[r.Intn(len(keys))]
@@ -83,7 +83,7 @@ func genOp(r *simrt.RNG, renameBias float64) Op {
 	}
 	if r.Intn(8) == 0 {
 		// the other builtins that write a field through the same point API
-		switch r.Intn(7) {
+		switch r.Intn(8) {
 		case 0:
 			return Op{Op: "raw1", K: k, Lit: "uppercase"}
 		case 1:
@@ -96,6 +96,8 @@ func genOp(r *simrt.RNG, renameBias float64) Op {
 			return Op{Op: "replace", K: k, Lit: []string{"[a-z]+", "\\d", "l+"}[r.Intn(3)]}
 		case 5:
 			return Op{Op: "strfmt", K: k, K2: keys[r.Intn(len(keys))]}
+		case 6:
+			return Op{Op: "xml", K: k}
 		default:
 			return Op{Op: "datetime", K: k, Lit: []string{"RFC3339", "ANSIC", "nope"}[r.Intn(3)]}
 		}
@@ -139,7 +141,7 @@ func (Prop) Generate(seed uint64, tier string) *core.Plan {
 		ns := 1 + r.Intn(3)
 		var segs []Segment
 		for s := 0; s < ns; s++ {
-			sg := Segment{F1: f1kinds[r.Intn(len(f1kinds))], Msg: []string{"hello 42", "x", "", "2024-01-02 03:04:05"}[r.Intn(4)], CancelAt: -1}
+			sg := Segment{F1: f1kinds[r.Intn(len(f1kinds))], Msg: []string{"hello 42", "x", "", "2024-01-02 03:04:05", "<a><b>t</b></a>"}[r.Intn(5)], CancelAt: -1}
 			n := 1 + r.Intn(maxOps)
 			for i := 0; i < n; i++ {
 				sg.Ops = append(sg.Ops, genOp(r, renameBias))
@@ -170,7 +172,7 @@ func (Prop) Generate(seed uint64, tier string) *core.Plan {
 // ---------------------------------------------------------------------------
 // rendering
 
-const chkArgs = "f1, get_key(f1), t1, get_key(t1), message, get_key(message), n1, get_key(n1), n2, get_key(n2), pl_msg, get_key(pl_msg)"
+const chkArgs = "f1, get_key(f1), t1, get_key(t1), message, get_key(message), n1, get_key(n1), n2, get_key(n2), pl_msg, get_key(pl_msg), `sp k`, get_key(`sp k`)"
 
 func renderSeg(sg *Segment) string {
 	var b strings.Builder
@@ -208,6 +210,8 @@ func renderSeg(sg *Segment) string {
 			fmt.Fprintf(&b, "strfmt(%s, \"%%v|%%v\", %s, f1)\n", op.K, op.K2)
 		case "datetime":
 			fmt.Fprintf(&b, "datetime(%s, \"ms\", %q)\n", op.K, op.Lit)
+		case "xml":
+			fmt.Fprintf(&b, "xml(_, '/a/b/text()', %s)\n", op.K)
 		default:
 			panic("c10: unknown op " + op.Op)
 		}
@@ -258,7 +262,7 @@ func canon(k string) string {
 	if k == "_" {
 		return "message"
 	}
-	return k
+	return strings.Trim(k, "`")
 }
 
 // ---------------------------------------------------------------------------
